@@ -34,24 +34,21 @@ ASSUMPTIONS = ["the transition matrix is irreducible and row-stochastic to round
                "index canonicalisation"]
 SHARDS = {"quick": 4, "thorough": 16}
 
-# tolerances (see calibration notes in the final report): observed errors on the unchanged/repaired tree are
-# <= 1e-13 (committor residual), <= 4e-12 relative (mfpt), so these are >= 100x larger.
-Q_PIN = 1e-12        # q on sources / sinks
-Q_BOUND = 1e-10      # [0, 1] slack
+# Tolerances.  Residuals of the defining equations are backward stable (observed <= 1e-15 relative) and get a
+# fixed tolerance; comparisons of *solutions* add R.cond_slack(cond(I-Q)) = 1e3*eps*cond because any double
+# precision solve is only accurate to ~eps*cond (observed error/(eps*cond) <= 0.4).  R.within() records
+# observed/tolerance; over 40 000 calibration cases the largest ratio was < 1e-2 for every check below.
+Q_PIN = 1e-12        # q on sources / sinks (observed: exact)
+Q_BOUND = 1e-10      # [0, 1] slack (+ cond slack)
 Q_RES = 1e-9         # first-step residual of the committor
-Q_REF = 1e-8         # against the reduced-block reference solve
+Q_REF = 1e-8         # against the reduced-block reference solve (+ cond slack)
 M_RES = 1e-9         # MFPT first-step residual, relative to max(lag, max m)
-M_REF = 1e-7         # MFPT against the reference solve, relative
-M_COL = 1e-6         # all-pairs column against single-sink call, relative to the column maximum
+M_REF = 1e-7         # MFPT against the reference solve, relative (+ cond slack)
+M_COL = 1e-6         # all-pairs column against single-sink call, relative to the column maximum (+ cond slack)
 LAG_RTOL = 1e-12     # lag-time linearity (a pure rescaling)
-SAME_RTOL = 1e-10    # dense against sparse
+SAME_TOL = 1e-10     # dense against sparse (+ cond slack; observed: bit-identical)
 
-CAL = {}             # name -> largest scaled error seen (calibration aid, not evidence)
-
-
-def _note(name, v):
-    if v > CAL.get(name, 0.0):
-        CAL[name] = float(v)
+W = R.within
 
 
 def _quiet(fn, *a, **k):
@@ -156,22 +153,21 @@ def _pops(case, T):
 
 def check_committor(T, q, sources, sinks):
     n = T.shape[0]
-    require(R.maxerr(q[sources], 0.0) <= Q_PIN, "forward committor is not 0 on a source state",
+    slack = R.cond_slack(R.cond_free(T, list(sources) + list(sinks)))
+    require(W("q_src", q[sources], Q_PIN), "forward committor is not 0 on a source state",
             q=q.tolist(), sources=sources)
-    require(R.maxerr(q[sinks], 1.0) <= Q_PIN, "forward committor is not 1 on a sink state",
+    require(W("q_snk", q[sinks] - 1.0, Q_PIN), "forward committor is not 1 on a sink state",
             q=q.tolist(), sinks=sinks)
-    require(bool(np.all(q >= -Q_BOUND) and np.all(q <= 1 + Q_BOUND)), "forward committor outside [0, 1]",
-            q=q.tolist())
+    out = np.maximum(np.maximum(-q, q - 1.0), 0.0)
+    require(W("q_bound", out, Q_BOUND + slack), "forward committor outside [0, 1]", q=q.tolist())
     free = [i for i in range(n) if i not in set(sources) | set(sinks)]
     if free:
         res = q[free] - T[free] @ q
-        _note("q_res", np.max(np.abs(res)))
-        require(bool(np.max(np.abs(res)) <= Q_RES),
+        require(W("q_res", res, Q_RES),
                 "committor of an intermediate state is not the transition-weighted average of its neighbours",
                 residual=res.tolist(), states=free, q=q.tolist())
     ref = R.ref_committor(T, sources, sinks)
-    _note("q_ref", R.maxerr(q, ref))
-    require(R.close(q, ref, Q_REF, 0.0), "committor differs from the reduced-block reference solve",
+    require(W("q_ref", q - ref, Q_REF + slack), "committor differs from the reduced-block reference solve",
             got=q.tolist(), want=ref.tolist())
     return free
 
@@ -195,21 +191,20 @@ def run_committor(case):
 
 def check_mfpt(T, m, sinks, lag):
     n = T.shape[0]
-    require(R.maxerr(m[sinks], 0.0) == 0.0 or R.maxerr(m[sinks], 0.0) <= 1e-12 * lag,
-            "mean first-passage time is not 0 on a sink state", m=m.tolist(), sinks=sinks)
+    slack = R.cond_slack(R.cond_free(T, sinks))
+    require(W("m_snk", m[sinks], 1e-12 * lag), "mean first-passage time is not 0 on a sink state",
+            m=m.tolist(), sinks=sinks)
     free = [i for i in range(n) if i not in set(sinks)]
     scale = max(float(lag), float(np.max(np.abs(m))))
     if free:
         res = m[free] - lag - T[free] @ m
-        _note("m_res", np.max(np.abs(res)) / scale)
-        require(bool(np.max(np.abs(res)) <= M_RES * scale),
+        require(W("m_res", res, M_RES * scale),
                 "MFPT of a non-sink state is not lag + transition-weighted average of the neighbours' times",
                 residual=res.tolist(), states=free, m=m.tolist(), lag=lag)
-        require(bool(np.all(m[free] >= lag * (1 - 1e-9))), "MFPT of a non-sink state is below one lag time",
-                m=m.tolist(), lag=lag)
+        require(bool(np.all(m[free] >= lag - (1e-9 + slack) * scale)),
+                "MFPT of a non-sink state is below one lag time", m=m.tolist(), lag=lag)
     ref = R.ref_mfpt(T, sinks, lag)
-    _note("m_ref", R.maxerr(m, ref) / scale)
-    require(bool(R.maxerr(m, ref) <= M_REF * scale), "MFPT differs from the reduced-block reference solve",
+    require(W("m_ref", m - ref, (M_REF + slack) * scale), "MFPT differs from the reduced-block reference solve",
             got=m.tolist(), want=ref.tolist())
     return free
 
@@ -238,6 +233,16 @@ def _lagclass(lag):
 # --------------------------------------------------------------------------
 # clause 3: all-pairs table, column by column
 
+def allpairs_tol(T, lag):
+    """Per-column absolute error allowance of the fundamental-matrix route m_ij = lag*(Z_jj - Z_ij)/pi_j:
+    Z = (I - T + 1 pi^T)^-1 is accurate to eps*cond*max|Z|, and the difference is divided by pi_j."""
+    n = T.shape[0]
+    pi = R.ref_stationary(T)
+    A = np.eye(n) - T + np.tile(pi, (n, 1))
+    Z = np.linalg.inv(A)
+    return lag * R.cond_slack(np.linalg.cond(A)) * float(np.max(np.abs(Z))) / pi
+
+
 def run_allpairs(case):
     T = R.build_T(case["chain"])
     n = T.shape[0]
@@ -249,24 +254,24 @@ def run_allpairs(case):
     A = _quiet(tpt.mfpts, X, lagtime=lag, **kw)
     require(isinstance(A, np.ndarray), "all-pairs mfpts is not an ndarray", type=type(A).__name__)
     A = _mat(A, n, "all-pairs mfpts")
+    tols = allpairs_tol(T, lag)
     for j in range(n):
         col = A[:, j]
         scale = max(float(lag), float(np.max(np.abs(col))))
         single = _quiet(tpt.mfpts, R.to_container(T, case["container"]),
                         sinks=R.set_arg([j], case["snk_form"]), lagtime=lag)
         single = _vec(single, n, "mfpts(sinks=[j])")
-        _note("col_vs_single", R.maxerr(col, single) / scale)
-        require(bool(R.maxerr(col, single) <= M_COL * scale),
+        require(W("col_vs_single", col - single, M_COL * scale + tols[j]),
                 "all-pairs column differs from the single-sink computation", j=j,
                 column=col.tolist(), single=single.tolist(), lag=lag)
         # the same column against the defining equations (independent of the single-sink code)
-        require(abs(col[j]) <= 1e-9 * scale, "all-pairs table is not 0 on its diagonal", j=j, value=float(col[j]))
+        require(W("col_diag", col[j], 1e-9 * scale), "all-pairs table is not 0 on its diagonal", j=j,
+                value=float(col[j]))
         others = [i for i in range(n) if i != j]
         colz = col.copy()
         colz[j] = 0.0
         res = col[others] - lag - T[others] @ colz
-        _note("col_res", np.max(np.abs(res)) / scale)
-        require(bool(np.max(np.abs(res)) <= M_RES * scale),
+        require(W("col_res", res, M_RES * scale + tols[j]),
                 "all-pairs column violates m_i = lag + sum_k T_ik m_k", j=j, residual=res.tolist(),
                 column=col.tolist(), lag=lag)
     return Info(n >= 4, _classes(case, ["lag=%s" % _lagclass(lag), "pops=" + case["pops"]]))
@@ -294,7 +299,6 @@ def run_lag(case):
                     shape=v.shape)
         require(R.close(dflt, unit, 0.0, LAG_RTOL), "%s mfpts: default lag time differs from lagtime=1" % label,
                 default=dflt.tolist(), unit=unit.tolist())
-        _note("lag", np.max(np.abs(at - lag * unit) / np.maximum(np.abs(at), 1e-300)) if at.size else 0.0)
         require(R.close(at, lag * unit, 0.0, LAG_RTOL), "%s mfpts(lagtime=lag) != lag * mfpts(lagtime=1)" % label,
                 lag=lag, got=at.tolist(), want=(lag * unit).tolist())
         require(R.close(at2, fac * at, 0.0, LAG_RTOL),
@@ -329,20 +333,20 @@ def run_same(case):
     # anchor the dense values themselves so that "same" cannot mean "equally wrong"
     check_committor(T, q0, case["sources"], case["sinks"])
     check_mfpt(T, m0, case["sinks"], case["lag"])
+    sq = R.cond_slack(R.cond_free(T, list(case["sources"]) + list(case["sinks"])))
+    sm = R.cond_slack(R.cond_free(T, case["sinks"]))
+    sA = float(np.max(allpairs_tol(T, case["lag"])))
     for cont in R.CONTAINERS[1:]:
         X = R.to_container(T, cont)
         q, m, A = _all_three(X, case, T, form)
         q, m = _vec(q, n, "committors[%s]" % cont), _vec(m, n, "mfpts(sinks)[%s]" % cont)
         require(isinstance(A, np.ndarray), "all-pairs mfpts[%s] is not an ndarray" % cont, type=type(A).__name__)
         A = _mat(A, n, "mfpts()[%s]" % cont)
-        _note("same_q", R.maxerr(q, q0))
-        _note("same_m", R.maxerr(m, m0) / max(np.max(np.abs(m0)), 1e-300))
-        _note("same_A", R.maxerr(A, A0) / max(np.max(np.abs(A0)), 1e-300))
-        require(R.close(q, q0, SAME_RTOL, 0.0), "committors differ between ndarray and %s input" % cont,
+        require(W("same_q", q - q0, SAME_TOL + sq), "committors differ between ndarray and %s input" % cont,
                 dense=q0.tolist(), other=q.tolist())
-        require(bool(R.maxerr(m, m0) <= SAME_RTOL * max(np.max(np.abs(m0)), case["lag"])),
+        require(W("same_m", m - m0, (SAME_TOL + sm) * max(float(np.max(np.abs(m0))), float(case["lag"]))),
                 "mfpts(sinks) differ between ndarray and %s input" % cont, dense=m0.tolist(), other=m.tolist())
-        require(bool(R.maxerr(A, A0) <= 1e-8 * np.max(np.abs(A0))),
+        require(W("same_A", A - A0, SAME_TOL * float(np.max(np.abs(A0))) + sA),
                 "all-pairs mfpts differ between ndarray and %s input" % cont, dense=A0.tolist(), other=A.tolist())
     nt = n >= 4 and (len(case["sources"]) >= 2 or len(case["sinks"]) >= 2)
     return Info(nt, _classes(case, ["pops=" + case["pops"], "form=" + form]))
